@@ -186,7 +186,7 @@ macro_rules! token_harness {
             };
             let got = text.parse::<$ty>();
             let want = $oracle(&bytes);
-            kani::cover!(want.is_some(), "a valid token of this length exists");
+            kani::cover!(got.is_err(), "the parser was reached and rejected some string of this length");
             match (&got, &want) {
                 (Ok(g), Some(w)) => assert!(g == w, "C06 token parses to the value the grammar assigns"),
                 (Ok(_), None) => assert!(false, "C06 text that is not a token of the grammar is rejected"),
